@@ -913,6 +913,8 @@ def contains_term(ctx, x, container):
     x, container = mk(x), mk(container)
     if is_concrete(x) and is_concrete(container):
         return x in container
+    if isinstance(container, range) and container.step == 1 and is_intlike(x):
+        return z3.And(zint(x) >= container.start, zint(x) < container.stop)
     if isinstance(container, (tuple, list, set, frozenset)):
         parts = [eq_term(ctx, x, e) for e in container]
         if any(p is True for p in parts):
